@@ -185,7 +185,7 @@ def gate_monitor(c: dict, obs: dict, fail: Any) -> None:
         if ran * 8 < c['ct'] - 1e-9:
             fail('change handlers ran before the consistency deadline while the patched version had not arrived',
                  'stale-view', observed={'ran_at': ran, 'deadline': c['ct'] / 8})
-    if ran is not None and not c['pie']:
+    if ran is not None and not c['pie'] and not c['gone']:
         fail('change handlers ran although a patch carried over from the previous cycle was pending', 'ran-with-pending-patch',
              observed={'ran_at': ran})
 
